@@ -3,7 +3,9 @@ package main
 import (
 	"bytes"
 	"context"
+	"errors"
 	"fmt"
+	"io"
 	"log/slog"
 	"net/http"
 	"net/http/httptest"
@@ -14,6 +16,7 @@ import (
 	"strings"
 	"sync"
 	"sync/atomic"
+	"syscall"
 	"time"
 
 	"github.com/whoisnian/glb/httpd"
@@ -50,6 +53,21 @@ type recWriter struct {
 	armed    atomic.Bool
 	entered  chan struct{}
 	release  chan struct{}
+	// failEvery > 0: every failEvery-th Write reports a transient failure (short write, EAGAIN, timeout) after having been
+	// handed the whole line: the logger must not react with further Write calls for that record
+	failEvery int
+	nwrites   atomic.Int64
+}
+
+type timeoutErr struct{}
+
+func (timeoutErr) Error() string   { return "injected: i/o timeout" }
+func (timeoutErr) Timeout() bool   { return true }
+func (timeoutErr) Temporary() bool { return true }
+
+func injected(err error) bool {
+	var te timeoutErr
+	return errors.Is(err, io.ErrShortWrite) || errors.Is(err, syscall.EAGAIN) || errors.Is(err, syscall.EINTR) || errors.As(err, &te)
 }
 
 func newRecWriter() *recWriter {
@@ -69,6 +87,18 @@ func (w *recWriter) Write(p []byte) (int, error) {
 		<-w.release
 	}
 	w.inside.Add(-1)
+	if n := w.nwrites.Add(1); w.failEvery > 0 && n%int64(w.failEvery) == 0 {
+		switch (n / int64(w.failEvery)) % 4 {
+		case 0:
+			return len(p) / 2, io.ErrShortWrite
+		case 1:
+			return 0, syscall.EAGAIN
+		case 2:
+			return len(p) / 3, timeoutErr{}
+		default:
+			return 0, syscall.EINTR
+		}
+	}
 	return len(p), nil
 }
 
@@ -165,6 +195,7 @@ type rec struct {
 	gateKnd int  // 0 none, 1 LogValuer, 2 Marshaler/Stringer
 	park    bool // formatting parks
 	bigMsg  bool // the size goes into the message instead of the attributes
+	ctxMode int  // 0 background, 1 cancelled context, 2 context whose deadline has passed (the logger must not care)
 	pc      int  // which of lg.PCs a hand-built record carries (handlers with addSource)
 }
 
@@ -172,6 +203,7 @@ type hdl struct {
 	chain  []lg.Step
 	during int // -1: exists before the run; t >= 0: derived by goroutine t during the run (from handler parent)
 	parent int
+	after  int // a derivation during the run happens after its goroutine has emitted this many records
 	apiAt  int // steps chain[apiAt:] are made through logger.New(h).With / WithGroup (one *Logger per node), the earlier ones through the Handler
 }
 
@@ -215,6 +247,8 @@ type scenario struct {
 	gateWrite bool // goroutine 0's first record is held inside Write while the others try
 	colorful  bool
 	addSource bool
+	failEvery int  // destination reports a transient error for every n-th Write
+	presolo   bool // the solo lines are made BEFORE the run, on an emptied buffer pool (two GCs)
 	noFmtWait bool // formatting happens under the lock in this build (probe): do not wait for formatters behind a held lock
 }
 
@@ -260,6 +294,16 @@ func (r *rec) emit(n node, g *gate) (err error) {
 		}
 	}()
 	ctx := context.Background()
+	switch r.ctxMode {
+	case 1:
+		c, cancel := context.WithCancel(ctx)
+		cancel()
+		ctx = c
+	case 2:
+		c, cancel := context.WithDeadline(ctx, time.Unix(1, 0))
+		defer cancel()
+		ctx = c
+	}
 	switch via {
 	case 0:
 		return h.Handle(ctx, lg.NewRecordPC(r.level, r.msg(), lg.PCs[r.pc%len(lg.PCs)], r.attrs(g)...))
@@ -321,7 +365,11 @@ func clipb(b []byte) []byte {
 
 func (sc *scenario) describe() string {
 	var sb strings.Builder
-	fmt.Fprintf(&sb, "%s/%s/threshold=%d/threads=%d/colour=%v/source=%v/handlers=", sc.kind, sc.name, sc.threshold, sc.nthr, sc.colorful, sc.addSource)
+	fmt.Fprintf(&sb, "%s/%s/threshold=%d/threads=%d/colour=%v/source=%v/", sc.kind, sc.name, sc.threshold, sc.nthr, sc.colorful, sc.addSource)
+	if sc.failEvery > 0 {
+		fmt.Fprintf(&sb, "writer-fails-every=%d/", sc.failEvery)
+	}
+	sb.WriteString("handlers=")
 	for i, h := range sc.handlers {
 		if i > 0 {
 			sb.WriteByte(',')
@@ -343,6 +391,9 @@ func (sc *scenario) describe() string {
 		if r.bigMsg {
 			sb.WriteString(":msg")
 		}
+		if r.ctxMode > 0 {
+			fmt.Fprintf(&sb, ":ctx%d", r.ctxMode)
+		}
 		if r.park {
 			sb.WriteString(":park")
 		}
@@ -352,6 +403,7 @@ func (sc *scenario) describe() string {
 
 func execute(e *hk.Env, sc *scenario) outcome {
 	w := newRecWriter()
+	w.failEvery = sc.failEvery
 	g := newGate()
 	root := rootNode(lg.NewHandlerOpts(sc.kind, w, sc.threshold, sc.colorful, sc.addSource))
 	hs := make([]node, len(sc.handlers))
@@ -363,6 +415,14 @@ func execute(e *hk.Env, sc *scenario) outcome {
 		if h.during < 0 {
 			hs[i] = h.build(root)
 			close(ready[i])
+		}
+	}
+	pre := map[int][]byte{}
+	if sc.presolo {
+		runtime.GC()
+		runtime.GC()
+		for i := range sc.recs {
+			pre[sc.recs[i].id] = sc.solo(&sc.recs[i])
 		}
 	}
 	nPark := 0
@@ -381,36 +441,42 @@ func execute(e *hk.Env, sc *scenario) outcome {
 	}
 	returned := make([]atomic.Int32, sc.nthr)
 	worker := func(t int) {
-		// derivations this goroutine performs during the run
-		for i, h := range sc.handlers {
-			if h.during == t {
-				<-ready[h.parent]
-				func() {
-					defer func() {
-						if p := recover(); p != nil {
-							errMu.Lock()
-							errs = append(errs, fmt.Sprint("panic in derive: ", p))
-							errMu.Unlock()
-							hs[i] = hs[h.parent]
-						}
-						close(ready[i])
+		// derivations this goroutine performs during the run, after it has emitted `emitted` records
+		emitted := 0
+		derive := func() {
+			for i, h := range sc.handlers {
+				if h.during == t && h.after == emitted {
+					<-ready[h.parent]
+					func() {
+						defer func() {
+							if p := recover(); p != nil {
+								errMu.Lock()
+								errs = append(errs, fmt.Sprint("panic in derive: ", p))
+								errMu.Unlock()
+								hs[i] = hs[h.parent]
+							}
+							close(ready[i])
+						}()
+						hs[i] = deriveNode(hs[h.parent], h.chain[len(h.chain)-1], len(h.chain)-1 >= h.apiAt)
 					}()
-					hs[i] = deriveNode(hs[h.parent], h.chain[len(h.chain)-1], len(h.chain)-1 >= h.apiAt)
-				}()
+				}
 			}
 		}
+		derive()
 		for i := range sc.recs {
 			r := &sc.recs[i]
 			if r.thread != t {
 				continue
 			}
 			<-ready[r.hidx]
-			if err := r.emit(hs[r.hidx], g); err != nil {
+			if err := r.emit(hs[r.hidx], g); err != nil && !(sc.failEvery > 0 && injected(err)) {
 				errMu.Lock()
 				errs = append(errs, err.Error())
 				errMu.Unlock()
 			}
 			returned[t].Add(1)
+			emitted++
+			derive()
 		}
 	}
 	var wg sync.WaitGroup
@@ -580,7 +646,12 @@ func execute(e *hk.Env, sc *scenario) outcome {
 		eq := false
 		if r != nil {
 			got := sc.norm(r, c.data)
-			want := sc.solo(r)
+			var want []byte
+			if sc.presolo {
+				want = pre[r.id]
+			} else {
+				want = sc.solo(r)
+			}
 			eq = want != nil && bytes.Equal(got, want)
 			seen[id]++
 			if !r.enabled {
@@ -884,15 +955,15 @@ func withStep(i int) lg.Step {
 
 // handlers: mode 0 root only; 1 derived before the run; 2 derived during the run by the goroutines
 func mkHandlers(r *hk.Rng, mode, nthr int) []hdl {
-	hs := []hdl{{nil, -1, -1, 0}}
+	hs := []hdl{{chain: nil, during: -1, parent: -1}}
 	switch mode {
 	case 1:
 		hs = append(hs,
-			hdl{[]lg.Step{withStep(1)}, -1, 0, r.Intn(2)},
-			hdl{[]lg.Step{{Group: "g"}}, -1, 0, r.Intn(2)},
-			hdl{[]lg.Step{withStep(1), {Group: "g"}, withStep(2)}, -1, 0, r.Intn(4)})
+			hdl{chain: []lg.Step{withStep(1)}, during: -1, apiAt: r.Intn(2)},
+			hdl{chain: []lg.Step{{Group: "g"}}, during: -1, apiAt: r.Intn(2)},
+			hdl{chain: []lg.Step{withStep(1), {Group: "g"}, withStep(2)}, during: -1, apiAt: r.Intn(4)})
 	case 2:
-		hs = append(hs, hdl{[]lg.Step{withStep(1)}, -1, 0, r.Intn(2)}) // a shared parent with attributes
+		hs = append(hs, hdl{chain: []lg.Step{withStep(1)}, during: -1, apiAt: r.Intn(2)}) // a shared parent with attributes
 		for t := 0; t < nthr; t++ {
 			parent := r.Intn(2)
 			var st lg.Step
@@ -906,7 +977,7 @@ func mkHandlers(r *hk.Rng, mode, nthr int) []hdl {
 			if apiAt >= np {
 				apiAt = np + r.Intn(2)
 			}
-			hs = append(hs, hdl{append(append([]lg.Step(nil), hs[parent].chain...), st), t, parent, apiAt})
+			hs = append(hs, hdl{chain: append(append([]lg.Step(nil), hs[parent].chain...), st), during: t, parent: parent, apiAt: apiAt})
 		}
 	}
 	return hs
@@ -932,7 +1003,7 @@ func run(e *hk.Env) error {
 	newRec := func(sc *scenario, t, hidx int, level slog.Level, via, size, gk int, park bool) {
 		nextID++
 		sc.recs = append(sc.recs, rec{id: nextID, thread: t, level: level, enabled: level >= sc.threshold, via: via, hidx: hidx, size: size, gateKnd: gk, park: park,
-			bigMsg: !park && r.Chance(25), pc: r.Intn(4)})
+			bigMsg: !park && r.Chance(25), pc: r.Intn(4), ctxMode: []int{0, 0, 0, 1, 2}[r.Intn(5)]})
 	}
 	scen, bad, writes, recsTotal, disabledTotal := 0, 0, 0, 0, 0
 	hist := map[string]int{}
@@ -946,6 +1017,9 @@ func run(e *hk.Env) error {
 			return // the build hangs: two scenarios reported, the rest would only add waiting time
 		}
 		sc.colorful, sc.addSource = r.Chance(25), r.Chance(45)
+		if (sc.name == "free" || sc.name == "stress" || sc.name == "gated-writer" || sc.name == "residue") && r.Chance(30) {
+			sc.failEvery = 2 + r.Intn(3)
+		}
 		sc.noFmtWait = fmtUnderLock[sc.kind]
 		if sc.noFmtWait && sc.name == "parked-formatter" {
 			skipped++
@@ -996,7 +1070,8 @@ func run(e *hk.Env) error {
 	for rep := 0; rep < reps; rep++ {
 		for _, k := range lg.Kinds {
 			// 1. residue: a 64 KiB line (and other sizes across the 16 KiB pool limit) followed by short lines, one goroutine
-			for _, big := range []int{65536, 40000, 17000, 16300, 1000} {
+			// sizes around the pool limit: line lengths 16383/16384/16385 and buffer capacities of exactly 16384 (14.3 .. 16 KB lines)
+			for _, big := range []int{65536, 40000, 17000, 16300, 1000, 14200 + r.Intn(200), 14400 + r.Intn(1500), 16384 - 120 + r.Intn(125), 8192 + 256*r.Intn(36)} {
 				sc := &scenario{kind: k, name: "residue", threshold: logger.LevelInfo, nthr: 1, handlers: mkHandlers(r, 1, 1)}
 				for i := 0; i < 8; i++ {
 					sz := 10
@@ -1004,6 +1079,27 @@ func run(e *hk.Env) error {
 						sz = big
 					}
 					newRec(sc, 0, r.Intn(4), levels[1+r.Intn(3)], r.Intn(4), sz, r.Intn(3), false)
+				}
+				do(sc)
+			}
+			// 1b. a line that leaves a buffer of critical capacity in the pool, THEN loggers are derived, other loggers write,
+			// the derived ones write: compared with solo lines made beforehand on an emptied pool
+			for i := 0; i < 6; i++ {
+				big := []int{14300 + r.Intn(150), 14400 + r.Intn(1900), 16384 - 130 + r.Intn(135), 8192 + 256*r.Intn(36), 15000, 16000}[i]
+				sc := &scenario{kind: k, name: "residue-derive", threshold: logger.LevelInfo, nthr: 1, presolo: true}
+				sc.handlers = []hdl{{during: -1, parent: -1},
+					{chain: []lg.Step{withStep(1)}, during: 0, parent: 0, after: 1, apiAt: r.Intn(2)},
+					{chain: []lg.Step{withStep(1), {Group: "g"}}, during: 0, parent: 1, after: 1, apiAt: 1 + r.Intn(2)},
+					{chain: []lg.Step{withStep(2)}, during: 0, parent: 0, after: 3, apiAt: r.Intn(2)}}
+				if sc.handlers[1].apiAt == 0 {
+					sc.handlers[2].apiAt = 0 // a node made through the Logger API has only Logger children
+				}
+				newRec(sc, 0, 0, logger.LevelError, 0, big, 0, false)
+				sc.recs[len(sc.recs)-1].bigMsg = i%2 == 0
+				newRec(sc, 0, 0, logger.LevelError, r.Intn(4), 10, 0, false)
+				newRec(sc, 0, 0, logger.LevelError, r.Intn(4), 900, 0, false)
+				for _, hx := range []int{1, 2, 0, 3, 1, 2, 3} {
+					newRec(sc, 0, hx, logger.LevelError, r.Intn(4), []int{10, 100, 1000}[r.Intn(3)], 0, false)
 				}
 				do(sc)
 			}
